@@ -372,19 +372,25 @@ func CompileList(list List) (f Object) {
 			pkg.mu.Lock()
 			fi := pkg.funcs[name]
 			if fi == nil {
-				lc := Lambda{
-					Doc: &FuncDoc{
-						Name: name,
-						Args: []*DocArg{{Name: AmpRest}, {Name: "args"}},
-					},
-					Forms: List{Undefined(name)},
+				// The lambda registered for the name, left by fmakunbound, is
+				// the one earlier compiled calls refer to and the next defun
+				// updates. It is not replaced.
+				lc := pkg.lambdas[name]
+				if lc == nil {
+					lc = &Lambda{
+						Doc: &FuncDoc{
+							Name: name,
+							Args: []*DocArg{{Name: AmpRest}, {Name: "args"}},
+						},
+						Forms: List{Undefined(name)},
+					}
+					pkg.lambdas[name] = lc
 				}
-				pkg.lambdas[name] = &lc
 				fc := func(args List) Object {
 					return &Dynamic{
 						Function: Function{
 							Name: name,
-							Self: &lc,
+							Self: lc,
 							Args: args,
 						},
 					}
